@@ -382,6 +382,8 @@ func c02R3(p *Prog, r *Report) {
 		want := polySym("len(" + recv + ".stream.DataSegment.rawData)").Add(polySym(recv + ".NPresamples")).Sub(polySym(recv + ".NSamples"))
 		found, startOK := false, false
 		var skipOK *bool
+		var vetoOK *bool
+		vetoWhat := ""
 		Instrs(fn, func(in ssa.Instruction) {
 			iff, ok := in.(*ssa.If)
 			if !ok {
@@ -419,7 +421,61 @@ func c02R3(p *Prog, r *Report) {
 				}
 				skipOK = &ok2
 			}
+			if name == "levelTriggerComputeAppend" {
+				// veto by a record found earlier: the test `i + NSamples > next found trigger`; on
+				// its true side the scan resumes exactly one record after that trigger, wherever
+				// in the vetoed span it was
+				isym := polySym(fmt.Sprintf("phi#%d", c.id(phi)))
+				nS := polySym(recv + ".NSamples")
+				Instrs(fn, func(x ssa.Instruction) {
+					vi, ok := x.(*ssa.If)
+					if !ok || !naturalLoopContains(phi.Block(), vi.Block()) {
+						return
+					}
+					vb, ok := vi.Cond.(*ssa.BinOp)
+					if !ok {
+						return
+					}
+					var next ssa.Value
+					switch {
+					case vb.Op == token.GTR && c.Of(vb.X).Equal(isym.Add(nS)):
+						next = vb.Y
+					case vb.Op == token.LSS && c.Of(vb.Y).Equal(isym.Add(nS)):
+						next = vb.X
+					default:
+						return
+					}
+					vetoSide := vi.Block().Succs[0]
+					resume := c.Of(next).Add(nS)
+					ok3, seenVeto := true, false
+					what := ""
+					for k, e := range phi.Edges {
+						if !phi.Block().Dominates(phi.Block().Preds[k]) {
+							continue
+						}
+						for _, pv := range c02EdgeValues(e, phi, 3) {
+							if !(pv.from == vetoSide || vetoSide.Dominates(pv.from)) {
+								continue
+							}
+							seenVeto = true
+							if !c.Of(pv.v).Add(pv.plus).Equal(resume) {
+								ok3 = false
+								what = c.Of(pv.v).Add(pv.plus).String()
+							}
+						}
+					}
+					if !seenVeto {
+						return
+					}
+					vetoOK = &ok3
+					vetoWhat = what
+				})
+			}
 		})
+		if vetoOK != nil {
+			r.Check(*vetoOK, "C02.R3", FuncName(fn)+" veto by an earlier record", p.Pos(fn.Pos()), "when a found trigger is less than a record ahead the scan resumes exactly one record after it",
+				"after the veto of a record found earlier the scan resumes at "+vetoWhat+" instead of (that trigger + NSamples): when the scan enters the vetoed span anywhere but at its first sample (the first triggerable sample of a block lies inside it, or two found triggers follow closely) samples after the vetoing record are never examined, and a level crossing there is lost")
+		}
 		r.Check(found, "C02.R3", FuncName(fn)+" scan end", p.Pos(fn.Pos()), "loop runs while i < len(rawData)+NPresamples-NSamples", "no scan loop bounded by len(rawData)+NPresamples-NSamples: samples whose full record is available are not all searched (or the search overruns the stream)")
 		if found {
 			r.Check(startOK, "C02.R3", FuncName(fn)+" scan begin", p.Pos(fn.Pos()), "loop starts at firstPotentialTriggerFrame()", "the scan loop does not start at firstPotentialTriggerFrame()")
@@ -965,7 +1021,101 @@ func c02R7(p *Prog, r *Report) {
 		if len(dirs) == 0 {
 			continue
 		}
-		esc := ReachAvoiding(f, nil, func(x ssa.Instruction) bool { return blocks[x.Block()] && x == x.Block().Instrs[0] }, func(x ssa.Instruction) bool { return makesRecord(x) })
+		// thresholds selected by the flags: `riseAt := <unreachable>; if dsp.EdgeRising { riseAt = level }`.
+		// The variable is a phi of constants and of one value assigned under a direction flag;
+		// a comparison with it is that direction's criterion, switched by the flag through the value.
+		isDir := map[string]bool{}
+		for _, d := range dirs {
+			isDir[d] = true
+		}
+		selected := map[ssa.Value]string{}
+		weakSentinel := ""
+		Instrs(f, func(in ssa.Instruction) {
+			ph, ok := in.(*ssa.Phi)
+			if !ok {
+				return
+			}
+			own := ""
+			// a threshold variable: at least one input is a constant no sum of four samples reaches
+			nSent := 0
+			for _, e := range ph.Edges {
+				if k, isC := constInt(stripConv(e)); isC && (k >= 1<<20 || k <= -(1<<20)) {
+					nSent++
+				}
+			}
+			if nSent == 0 {
+				return
+			}
+			for i, e := range ph.Edges {
+				if k, isC := constInt(stripConv(e)); isC {
+					if k < 1<<20 && k > -(1<<20) {
+						own = "-" // a constant a sum of four samples can reach is not "switched off"
+						weakSentinel = fmt.Sprintf("%s (constant %d)", p.InstrPos(ph), k)
+					}
+					continue
+				}
+				pred := ph.Block().Preds[i]
+				fl := ""
+				// the assignment sits directly under `if <direction flag>`
+				direct := false
+				if len(pred.Preds) == 1 {
+					if d, _, ft, okf := flagTest(pred.Preds[0].Instrs[len(pred.Preds[0].Instrs)-1]); okf && isDir[d] && ft == pred {
+						direct = true
+					}
+				}
+				if !direct {
+					own = "-"
+					continue
+				}
+				for _, ct := range controllingIfs(pred) {
+					d, _, ft, okf := flagTest(ct.If)
+					if !okf || !isDir[d] {
+						continue
+					}
+					if ct.If.Block().Succs[ct.Branch] == ft {
+						if fl == "" {
+							fl = d
+						}
+					} else {
+						// installed only while another direction is off
+						r.Bad("C02.R7", FuncName(f)+": each direction's criterion is switched by its own flag alone", p.InstrPos(ph),
+							"the threshold assigned at "+p.InstrPos(pred.Instrs[0])+" is installed only when "+d+" is off: with both directions enabled that direction's edges satisfy an enabled criterion and yet produce no record (nor lie in another record's dead time)")
+					}
+				}
+				if fl == "" || (own != "" && own != fl) {
+					own = "-"
+				} else {
+					own = fl
+				}
+			}
+			if own != "" && own != "-" {
+				selected[ph] = own
+			}
+		})
+		usesSelected := func(x ssa.Instruction) bool {
+			iff, ok := x.(*ssa.If)
+			if !ok {
+				return false
+			}
+			bo, ok := iff.Cond.(*ssa.BinOp)
+			if !ok {
+				return false
+			}
+			for _, side := range []ssa.Value{bo.X, bo.Y} {
+				side = stripConv(side)
+				if u, isU := side.(*ssa.UnOp); isU && u.Op == token.SUB {
+					side = stripConv(u.X)
+				}
+				if selected[side] != "" {
+					return true
+				}
+			}
+			return false
+		}
+		_ = weakSentinel
+		esc := ReachAvoiding(f, nil, func(x ssa.Instruction) bool {
+			return (blocks[x.Block()] && x == x.Block().Instrs[0]) || usesSelected(x)
+		}, func(x ssa.Instruction) bool { return makesRecord(x) })
 		pos := p.Pos(f.Pos())
 		if len(esc) > 0 {
 			pos = p.InstrPos(esc[0])
@@ -1806,4 +1956,42 @@ func c02R9(p *Prog, r *Report) {
 			r.Unk("C02.R9", key, p.InstrPos(v.at), "not decided whether the records are in time order here: "+v.why)
 		}
 	}
+}
+
+// c02EdgeValue: one value that can arrive at a loop phi round the loop: v + plus, leaving block from.
+type c02EdgeValue struct {
+	v    ssa.Value
+	plus Poly
+	from *ssa.BasicBlock
+}
+
+// c02EdgeValues: e, an input of the loop phi head, unfolded through `x + const` and inner phis
+// (the post block of a for loop joins the `continue` paths): the values with the block each
+// comes from.
+func c02EdgeValues(e ssa.Value, head *ssa.Phi, depth int) []c02EdgeValue {
+	var out []c02EdgeValue
+	var walk func(v ssa.Value, plus Poly, from *ssa.BasicBlock, d int)
+	walk = func(v ssa.Value, plus Poly, from *ssa.BasicBlock, d int) {
+		switch x := v.(type) {
+		case *ssa.BinOp:
+			if x.Op == token.ADD {
+				if k, isC := constInt(x.Y); isC {
+					walk(x.X, plus.Add(polyConst(k)), from, d)
+					return
+				}
+			}
+		case *ssa.Phi:
+			if x != head && d < depth {
+				for i, e2 := range x.Edges {
+					walk(e2, plus, x.Block().Preds[i], d+1)
+				}
+				return
+			}
+		}
+		if from != nil {
+			out = append(out, c02EdgeValue{v, plus, from})
+		}
+	}
+	walk(e, Poly{}, nil, 0)
+	return out
 }
